@@ -200,6 +200,9 @@ func runC04(p *Prog, r *Report) {
 	if want("C04.11") {
 		ruleTrSeqAfterFlush(p, r, "C04.11")
 	}
+	if want("C04.22") {
+		ruleResetEqualsNew(p, r, "C04.22")
+	}
 	if want("C04.21") {
 		ruleSkippedEntryLeavesNoTrace(p, r, "C04.21")
 	}
